@@ -14,7 +14,7 @@ extern int ipcnames_live(char *buf, size_t sz);
 
 static int S, MODE, S2;
 static const char *MN[] = {"equal", "larger", "smaller"};
-static char name[64];
+static char name[64], other_name[64];      /* both 51 characters long (the decorated name is then exactly one 64-byte block of the key hash), different in the last character */
 static int replay_mode, fail_flag;
 static char cur_hist[1024];
 static struct { char sig[128]; long n; } sigs[128]; static int nsigs;
@@ -35,22 +35,25 @@ static void viol(const char *sig, const char *fmt, ...)
 typedef struct { unsigned char kind, h; unsigned short len; } Op;   /* kind 0 write 1 read 2 clear */
 typedef struct { int n; unsigned char b[64]; unsigned char next; } Deq;
 
-static PShmBuffer *H[3];
+static PShmBuffer *H[3], *OTHER;           /* OTHER: a buffer under another name that nobody touches: it must stay empty */
 static unsigned char *raw; static size_t rawsz;
 
 static void open_all(void)
 {
     PError *err = NULL;
     H[1] = p_shm_buffer_new(name, S, &err);
-    if (!H[1]) { fprintf(stderr, "p_shm_buffer_new failed: %s\n", err ? p_error_get_message(err) : "?"); exit(2); }
+    if (!H[1]) { viol("new-failed/first-handle", "p_shm_buffer_new on a fresh, unique name failed: %s", err ? p_error_get_message(err) : "?"); exit(1); }
     H[2] = p_shm_buffer_new(name, S2, &err);
-    if (!H[2]) { fprintf(stderr, "second p_shm_buffer_new failed\n"); exit(2); }
+    if (!H[2]) { viol("new-failed/second-handle", "a second p_shm_buffer_new on the name of an existing buffer failed"); exit(1); }
     raw = p_shm_get_address(H[1]->shm);
+    OTHER = p_shm_buffer_new(other_name, S, NULL);
+    if (!OTHER) { viol("new-failed/other-name", "p_shm_buffer_new on a second fresh name failed while the first buffer exists"); exit(1); }
 }
 static void close_all(void)
 {
     p_shm_buffer_take_ownership(H[1]);
     p_shm_buffer_free(H[2]); p_shm_buffer_free(H[1]);
+    if (OTHER) { p_shm_buffer_take_ownership(OTHER); p_shm_buffer_free(OTHER); OTHER = NULL; }
     H[1] = H[2] = NULL;
 }
 static void get_pos(size_t *rp, size_t *wp) { memcpy(rp, raw, sizeof *rp); memcpy(wp, raw + sizeof(size_t), sizeof *wp); }
@@ -60,6 +63,7 @@ static long n_trans, n_queries, n_wrap_reads, n_wrap_writes, n_full_rejects;
 static void check_spaces(const Deq *d, const char *opk)
 {
     int h; char s[64];
+    if (OTHER && p_shm_buffer_get_used_space(OTHER, NULL) != 0) { snprintf(s, sizeof s, "other-name-affected/%s", opk); viol(s, "a buffer with a different name, which nobody has written to, reports %ld used bytes", (long)p_shm_buffer_get_used_space(OTHER, NULL)); }
     for (h = 1; h <= 2; h++) {
         pssize u = p_shm_buffer_get_used_space(H[h], NULL), f = p_shm_buffer_get_free_space(H[h], NULL);
         n_queries += 2;
@@ -180,7 +184,7 @@ int main(int argc, char **argv)
     S2 = MODE == 0 ? S : MODE == 1 ? S + 3 : (S - 2 > 1 ? S - 2 : 1);
     if (S > 60) return 2;
     hout_open(); p_libsys_init();
-    snprintf(name, sizeof name, "vf08_%d_%d_%d", (int)getpid(), S, MODE);
+    { int n = snprintf(name, sizeof name, "vf08_%d_%d_%d_", (int)getpid(), S, MODE); while (n < 50) name[n++] = 'x'; name[50] = 'A'; name[51] = 0; strcpy(other_name, name); other_name[50] = 'B'; }
     if (argc >= 5 && !strcmp(argv[3], "--replay")) return do_replay(argv[4]);
 
     st[0].rp = 0; st[0].wp = 0; st[0].parent = -1; st[0].op = z; st[0].depth = 0; nst = 1;
@@ -191,7 +195,11 @@ int main(int argc, char **argv)
             op.kind = kind; op.h = hh; op.len = len;
             rebuild(h, n, &d);
             get_pos(&rp, &wp);
-            if (rp != st[s].rp || wp != st[s].wp) { fprintf(stderr, "canon-on-replay mismatch\n"); return 2; }
+            if (rp != st[s].rp || wp != st[s].wp) {       /* never seen on a correct tree: the state of the buffer is a function of the calls made on it */
+                hist_text(h, n, cur_hist, sizeof cur_hist);
+                viol("state-not-determined-by-history", "the same history run a second time left read/write positions %zu/%zu instead of %zu/%zu: something other than the calls on this buffer changes it", rp, wp, st[s].rp, st[s].wp);
+                close_all(); goto done;
+            }
             canon_checks++;
             h[n] = op; hist_text(h, n + 1, cur_hist, sizeof cur_hist);
             hout_progress("sig=seq/%s/%s shmbuf_bfs %d %d --replay %s", MN[MODE], kind == 0 ? "write" : kind == 1 ? "read" : "clear", S, MODE, cur_hist);
@@ -207,6 +215,7 @@ int main(int argc, char **argv)
             if (ipcnames_live(live, sizeof live) != 0) { viol("names-left", "IPC names still exist after the owner freed the buffer: %s", live); }
         }
     }
+done:
     for (s = 0; s < nst; s++) if (st[s].depth > maxd) maxd = st[s].depth;
     hout_stat("states", nst); hout_stat("transitions", n_trans + n_queries); hout_stat("mutating_transitions", n_trans);
     hout_stat("space_queries", n_queries); hout_stat("canon_on_replay_checks", canon_checks); hout_stat("max_depth", maxd);
